@@ -16,8 +16,8 @@ FUNCTIONS = ["peltool.main (whole dispatch)", "peltool.deletePELFromPELId", "pel
 HARNESSES = [
     {"fn": "h_dispatch", "cases": ["modesA", "modesB", "strings", "bmc"], "timeout": {"quick": 120, "thorough": 400}},
     {"fn": "h_delete_id", "cases": ["top", "suboly", "none", "two", "pathid", "empty-top"], "timeout": {"quick": 90, "thorough": 300}},
-    {"fn": "h_delete_all", "cases": ["mixed", "empty-top"], "timeout": {"quick": 90, "thorough": 300}},
-    {"fn": "h_json_names", "cases": ["plid-differs", "ext"], "timeout": {"quick": 90, "thorough": 300}},
+    {"fn": "h_delete_all", "cases": ["mixed", "empty-top", "non-regular"], "timeout": {"quick": 90, "thorough": 300}},
+    {"fn": "h_json_names", "cases": ["plid-differs", "ext", "small-eid"], "timeout": {"quick": 90, "thorough": 300}},
 ]
 BOUNDS = {"tree": "3 top-level files (two PELs named <stamp>_<entry id>, one note), sub-directories 'archive' (2 files, one "
                   "whose name contains a top-level id) and 'nested' (1 file)",
@@ -169,6 +169,9 @@ def h_delete_all() -> bool:
     post: _
     """
     w = tree(top_empty=(CASE == "empty-top"))
+    if CASE == "non-regular":
+        # entries that are not regular files (a FIFO, a dangling symlink): listed by the walk, not deleted
+        w.files += [("fifo", None), ("dangling-link", None)]
     extra = {k: bool(sym_bool(k)) for k in ("hex", "reverse", "every_pel", "only")}
     ns = Namespace(**dict(ARG_DEFAULTS, path="/pels", deleteAll=True, **extra))
     try:
@@ -176,7 +179,8 @@ def h_delete_all() -> bool:
     except Exception as e2:
         return verdict(False, obs={"exception": repr(e2)})
     removes = [x[1] for x in w.events if x[0] == "remove"]
-    conds = [status == 0, sorted(removes) == sorted(top_paths(w)), not any(x[0] == "open_w" for x in w.events)]
+    regular = sorted(w.path.rstrip("/") + "/" + n for n, d in w.files if d is not None)
+    conds = [status == 0, sorted(removes) == regular, not any(x[0] == "open_w" for x in w.events)]
     return verdict(sym_all(conds), obs={"removes": removes})
 
 
@@ -189,6 +193,9 @@ def h_json_names() -> bool:
     w = tree()
     if CASE == "ext":
         w.files.append(("third_50000004.txt", pb.PEL(ph=dict(eid=0x50000004, plid=0x50000001))))
+    if CASE == "small-eid":
+        eid = choice("eid", [0x00000001, 0x0A0B0C0D, 0x00000000, 0x000A0010])      # entry ids with leading zero digits
+        w.files = [("small", pb.PEL(ph=dict(eid=eid)))]
     ns = Namespace(**dict(ARG_DEFAULTS, path="/pels", json=True, output_dir=out, every_pel=True, extension=ext))
     try:
         status = run_main(peltool, w, ns)
@@ -196,6 +203,11 @@ def h_json_names() -> bool:
         return verdict(False, obs={"exception": repr(e2)})
     creates = sorted(x[1] for x in w.events if x[0] == "open_w")
     d = out or "/pels"
+    if CASE == "small-eid":
+        conds = [status == 0, len(creates) == 1, not any(x[0] == "remove" for x in w.events)]
+        if len(creates) == 1:
+            conds.append(creates[0] == "%s/small.%08X.json" % (d, eid))
+        return verdict(sym_all(conds), obs={"creates": creates})
     if CASE == "ext":
         exp = [d + "/third_50000004.txt.50000004.json"]
     else:
